@@ -327,6 +327,16 @@ func dispatch(input io.Reader, logPath string, workerArgs []string, nworkers, ba
 				// the batch killed or hung the worker: find the culprit(s) one case at a time
 				p.kill()
 				p = nil
+				mu.Lock()
+				enough := sum.Crashes >= 3
+				if enough {
+					sum.Counters["cases-skipped-after-3-confirmed-crashes"] += len(b)
+					sum.Cases += len(b)
+				}
+				mu.Unlock()
+				if enough {
+					continue // three reproduced process deaths / hangs are reported; do not spend minutes on more
+				}
 				for _, line := range b {
 					q, err2 := startProc(workerArgs)
 					if err2 != nil {
